@@ -128,7 +128,13 @@ THEOREMS = {
          'C09_sites_from_polygon_41', 'C09_sites_from_polygon_no_holes', 'C09_sites_refine_wf', 'C09_sites_refine_wf_list',
          'C09_sites_mesh_polygon_origin', 'C09_sites_mesh_polygon', 'C09_sites_mesh_polygon_41', 'C09_sites_mesh_polygon_no_holes',
          'C09_sites_api_closed_loop_nonempty', 'C09_sites_api_holes_nonempty', 'C09_sites_api_outer_nonempty', 'C09_sites_api_from_polygon', 'C09_sites_api_mesh_polygon',
-         'C09_sites_41_reachable', 'C09_sites_42_needs_empty_hole', 'C09_sites_21_needs_empty_outline'],
+         'C09_sites_41_reachable', 'C09_sites_42_needs_empty_hole', 'C09_sites_21_needs_empty_outline',
+         # Properties/C09_progress.v: counter accounting of every step, progress of a pass, passes <= created + 1, cost
+         'C09_progress_flip_diagonal', 'C09_progress_restore_delaunay', 'C09_progress_split_triangle', 'C09_progress_split_edge',
+         'C09_progress_split_edge_ok', 'C09_progress_add_point_to_triangle', 'C09_progress_add_point', 'C09_progress_pass',
+         'C09_progress_refine', 'C09_progress_recursion_depth', 'C09_progress_out_of_fuel', 'C09_progress_fuel_adequate',
+         'C09_progress_fuel_independent', 'C09_progress_slots', 'C09_progress_pass_cost', 'C09_progress_trace_length',
+         'C09_progress_cost', 'C09_progress_final_slots', 'C09_progress_mesh_polygon'],
  'C18': ['C18_refine_ok_bound', 'C18_mesh_polygon_ok_bound', 'C18_ok_all_valid', 'C18_cached_ratio_is_triangle_ratio'],
 }
 
